@@ -22,8 +22,27 @@ func (evmKeeper *Keeper) NewStateDB(
 	ctx sdk.Context, txConfig statedb.TxConfig,
 ) *statedb.StateDB {
 	stateDB := statedb.New(ctx, evmKeeper, txConfig)
-	evmKeeper.Bank.StateDB = stateDB
+	if !ctx.IsCheckTx() {
+		evmKeeper.Bank.StateDB = stateDB
+	}
 	return stateDB
+}
+
+// TxStateDB returns the StateDB of the transaction being delivered. Queries,
+// simulations and CheckTx run on a check-state context, possibly concurrently
+// with DeliverTx: they must neither read, publish nor clear that StateDB.
+func (bk *NibiruBankKeeper) TxStateDB(ctx sdk.Context) *statedb.StateDB {
+	if ctx.IsCheckTx() {
+		return nil
+	}
+	return bk.StateDB
+}
+
+// ClearTxStateDB forgets the StateDB of the delivered transaction.
+func (bk *NibiruBankKeeper) ClearTxStateDB(ctx sdk.Context) {
+	if !ctx.IsCheckTx() {
+		bk.StateDB = nil
+	}
 }
 
 func (bk NibiruBankKeeper) InputOutputCoins(
@@ -235,7 +254,7 @@ func (bk *NibiruBankKeeper) SyncStateDBWithAccount(
 	ctx sdk.Context, acc sdk.AccAddress,
 ) {
 	// If there's no StateDB set, it means we're not in an EthereumTx.
-	if bk.StateDB == nil {
+	if ctx.IsCheckTx() || bk.StateDB == nil {
 		return
 	}
 
